@@ -57,6 +57,13 @@ class Check:
         self.level = level
         self.t0 = time.time()
         self.scratch = tempfile.mkdtemp(prefix="verif-%s-" % pid, dir=os.environ.get("TMPDIR", "/tmp"))
+        # the specification and the harness sources as they are now: a long run is not disturbed by later edits
+        self.specdir = os.path.join(self.scratch, "spec")
+        shutil.copytree(os.path.join(VERIF, "spec"), self.specdir)
+        os.makedirs(os.path.join(self.scratch, "hsrc"))
+        for f in os.listdir(os.path.join(VERIF, "harness")):
+            if f.endswith(".go") or f == "go.mod":
+                shutil.copy(os.path.join(VERIF, "harness", f), os.path.join(self.scratch, "hsrc"))
         self.harness = None
         self.harnesses = {}
         self.states = 0
@@ -88,11 +95,7 @@ class Check:
         if self.harnesses.get(key):
             return self.harnesses[key]
         src = os.path.join(self.scratch, "hsrc")
-        if not os.path.isdir(src):
-            os.makedirs(src)
-            for f in os.listdir(os.path.join(VERIF, "harness")):
-                if f.endswith(".go") or f == "go.mod":
-                    shutil.copy(os.path.join(VERIF, "harness", f), src)
+        if not os.path.exists(os.path.join(src, "go.sum")):
             gm = open(os.path.join(src, "go.mod")).read().replace("=> /repo", "=> " + REPO)
             open(os.path.join(src, "go.mod"), "w").write(gm)
             shutil.copy(os.path.join(REPO, "go.sum"), os.path.join(src, "go.sum"))
@@ -177,10 +180,10 @@ class Check:
         """Runs TLC on spec/<module>.tla with spec/<cfg> in a private directory. `files` are copied in
         (path or (path, name-in-dir)). `consts` overrides constant values in the cfg (name -> text)."""
         d = tempfile.mkdtemp(prefix="tlc-", dir=self.scratch)
-        for f in os.listdir(os.path.join(VERIF, "spec")):
+        for f in os.listdir(self.specdir):
             if f.endswith(".tla"):
-                shutil.copy(os.path.join(VERIF, "spec", f), d)
-        cfgtext = open(os.path.join(VERIF, "spec", cfg)).read()
+                shutil.copy(os.path.join(self.specdir, f), d)
+        cfgtext = open(os.path.join(self.specdir, cfg)).read()
         if consts:
             consts = dict(consts)
             if "INVS" in consts:
@@ -252,7 +255,7 @@ class Check:
             raise ToolError("%s: driver %s produced no events" % (label, driver))
         self._sample(events, nontrivial, key)
         masked = set()
-        stateful = "ChunkSize" not in open(os.path.join(VERIF, "spec", cfg)).read()
+        stateful = "ChunkSize" not in open(os.path.join(self.specdir, cfg)).read()
 
         def mask(e2):
             if stateful:     # a history is validated as a whole: the event stays, its verdict is waived
@@ -275,7 +278,7 @@ class Check:
                     if stateful:
                         expect = len(events) + 1
                     else:
-                        cm = re.search(r"ChunkSize\s*=\s*(\d+)", open(os.path.join(VERIF, "spec", cfg)).read())
+                        cm = re.search(r"ChunkSize\s*=\s*(\d+)", open(os.path.join(self.specdir, cfg)).read())
                         chunk = int((consts_extra or {}).get("ChunkSize", cm.group(1) if cm else 1))
                         expect = 1 + len(events) + (len(events) + chunk - 1) // chunk     # initial + chunk entries + events
                     if r.distinct != expect:
@@ -457,7 +460,7 @@ def run_replay(ck, rp):
     else:
         path, _ = ck.run_harness(rp["driver"], args, out_name="replay.ndjson", seed=rp["seed"], env=rp.get("driver_env"))
     events = [json.loads(x) for x in open(path)]
-    cfgtext = open(os.path.join(VERIF, "spec", rp["cfg"])).read()
+    cfgtext = open(os.path.join(ck.specdir, rp["cfg"])).read()
     stateful = "ChunkSize" not in cfgtext      # a history is validated as a whole
     if rp.get("variant") is not None and not stateful:
         events = [e for e in events if e.get("variant") == rp["variant"]]
